@@ -1,0 +1,24 @@
+//go:build verif
+
+// Verification hooks (read-only): compiled only with -tags verif.
+
+package probdist
+
+// VerifTables returns copies of the distribution's tables: the value table (without
+// minValue added), the generated weights, and the alias / prob tables of Vose's method.
+func VerifTables(w *WeightedDist) (values []int, weights []float64, alias []int, prob []float64) {
+	w.Lock()
+	defer w.Unlock()
+	values = append([]int(nil), w.values...)
+	weights = append([]float64(nil), w.weights...)
+	alias = append([]int(nil), w.alias...)
+	prob = append([]float64(nil), w.prob...)
+	return
+}
+
+// VerifBounds returns the configured bounds and bias flag.
+func VerifBounds(w *WeightedDist) (minValue, maxValue int, biased bool) {
+	w.Lock()
+	defer w.Unlock()
+	return w.minValue, w.maxValue, w.biased
+}
